@@ -1647,6 +1647,19 @@ Proof.
   - pose proof (dq_excl N own s (2 * u + 2) (2 * t + 2) g I ltac:(lia) ltac:(lia) Hq Hg). lia.
 Qed.
 
+Lemma sumn_pos (f : nat -> nat) n : 1 <= sumn f n -> exists i, i < n /\ 1 <= f i.
+Proof.
+  induction n; cbn [sumn]; intros H; [lia|].
+  destruct (le_lt_dec 1 (f n)) as [A|A]; [exists n; split; auto|].
+  destruct IHn as (i & Hi & Hf); [lia|]. exists i. split; auto.
+Qed.
+
+Lemma Qcn_pos dqs n g : 1 <= Qcn dqs n g -> exists d, 1 <= d <= 2 * n /\ In g (dqs d).
+Proof.
+  unfold Qcn. intros H. destruct (sumn_pos _ _ H) as (i & Hi & Hf). exists (S i). split; [lia|].
+  apply cnt_In. exact Hf.
+Qed.
+
 (* ---------------- one step preserves the bypass invariant ---------------- *)
 Section GStep.
   Variables (N : nat) (own : nat -> nat) (x : nst) (u : nat).
@@ -1816,4 +1829,424 @@ Section GStep.
   Lemma own_dq_after d g : (d = 2 * u + 1 \/ d = 2 * u + 2) -> In g (dq s' d) ->
     In g (dq s' (2 * u + 1)) \/ In g (dq s' (2 * u + 2)).
   Proof. intros [->| ->] H; auto. Qed.
+
+  Lemma own_ghost g : In g (dq s' (2 * u + 1)) \/ In g (dq s' (2 * u + 2)) ->
+    (forall y, handout s u = Some y -> g <> y) ->
+    (handout s u = None -> nbyp (nstep x u) g = nbyp x g) /\
+    nbyp (nstep x u) g <= nbyp x g + 1 /\
+    nstl x g <= nstl (nstep x u) g /\
+    ((exists k i a b c z, pc (thr s u) = PL2 k i a b c z) -> inqN s u g = true ->
+       nstl (nstep x u) g = S (nstl x g)) /\
+    nmx x g <= nmx (nstep x u) g /\ cntT s' u <= nmx (nstep x u) g.
+  Proof.
+    intros Hg Hh. destruct (own_after g Hg) as [Hs Hq].
+    destruct (ghost_vals g (rst_false g Hh Hs)) as (A & B & C & D & E).
+    rewrite (E Hq). repeat split; auto; lia.
+  Qed.
+
+  (* a fiber held by u that is not being handed out keeps byp = 0 when it is pushed *)
+  Lemma pushed_byp0 f : In f (held (thr s u)) -> handout s u = None -> popT (thr s u) <> Some f ->
+    (forall y, stolen s s' u = Some y -> f <> y) -> nbyp (nstep x u) f = 0.
+  Proof.
+    intros Hin Hh Hp Hs.
+    assert (R : is_some_eq (handout s u) f || is_some_eq (stolen s s' u) f = false).
+    { apply rst_false; auto. intros y Hy. congruence. }
+    destruct (ghost_vals f R) as (A & _). rewrite (A Hh). apply held_byp0; auto.
+  Qed.
+
+  Lemma popT_after_none : (forall k, pc (thr s u) <> PN7 k) -> popT (thr s' u) = None.
+  Proof.
+    intros H. destruct (popT (thr s' u)) as [y|] eqn:E; auto.
+    destruct (pop_effect N own s u y I0 Hu E) as (k & Hp & _). exfalso. eapply H; eauto.
+  Qed.
+
+  Notation GTu := (GT (FqN s' u) (SqN s' u) (pendT (thr s' u)) (cntT s' u)
+                      (nbyp (nstep x u)) (nstl (nstep x u)) (nmx (nstep x u))).
+
+  Lemma sf_same : (forall k tmp sv, pc (thr s u) <> PN4 k tmp sv) -> sfrom s' u = sfrom s u.
+  Proof.
+    intros H. destruct (sf_effect s u) as [E|(k & tmp & sv & Hp & _)]; auto. exfalso. eapply H; eauto.
+  Qed.
+
+  Lemma handout_none : (forall k y, pc (thr s u) <> PN8 k y) -> handout s u = None.
+  Proof. intros H. unfold handout. destruct (pc (thr s u)) eqn:E; auto. exfalso. eapply H; eauto. Qed.
+
+  Lemma pend_none : (forall k y, pc (thr s u) <> PN8 k y) -> pendT (thr s u) = 0.
+  Proof. intros H. unfold pendT. destruct (pc (thr s u)) eqn:E; auto. exfalso. eapply H; eauto. Qed.
+
+  (* the deques of u do not change, no swap, u is not examining a popped fiber *)
+  Lemma gn_own_same :
+    sfrom s' u = sfrom s u -> dq s' (sfrom s u) = dq s (sfrom s u) ->
+    dq s' (4 * u + 3 - sfrom s u) = dq s (4 * u + 3 - sfrom s u) ->
+    handout s u = None -> popT (thr s' u) = None -> GTu.
+  Proof.
+    intros Esf EF ES Hh Hp. pose proof (q_thr x G u Hu) as GU. fold s in GU.
+    pose proof (own_range N own s u I0 Hu) as (A1 & A2 & A3 & A4 & A5).
+    unfold FqN, SqN in *. rewrite Esf, EF, ES. rewrite pend_pop, Hp.
+    eapply GT_same; [exact GU|lia|].
+    intros g Hg.
+    assert (Hg' : In g (dq s' (2 * u + 1)) \/ In g (dq s' (2 * u + 2))).
+    { rewrite <- EF, <- ES in Hg. destruct Hg as [Hg|Hg]; [destruct A4 as [E|E]|destruct A5 as [E|E]]; rewrite E in Hg; auto. }
+    destruct (own_ghost g Hg') as (B1 & B2 & B3 & B4 & B5 & B6); [intros y Hy; congruence|].
+    repeat split; auto.
+  Qed.
+
+  (* what u's own deques look like after its step, for the pcs that touch them *)
+  Lemma own_push f : (exists k, pc (thr s u) = PSched f k) \/ (exists k, pc (thr s u) = PN9 k f) ->
+    dq s' (4 * u + 3 - sfrom s u) = f :: dq s (4 * u + 3 - sfrom s u) /\ dq s' (sfrom s u) = dq s (sfrom s u).
+  Proof.
+    intros Hp. pose proof (own_range N own s u I0 Hu) as (A1 & A2 & A3 & A4 & A5).
+    pose proof (m_ts N own s I0) as Hts. pose proof (m_to N own s I0 u Hu) as Hto.
+    unfold s'. unfold step. destruct Hp as [(k & Hpc)|(k & Hpc)]; rewrite Hpc.
+    - rewrite Hts, Hto by (intros ? ?; rewrite Hpc; discriminate).
+      split; destruct k; dmatch; cbn [fst dq set_thr set_dq]; rewrite ?upd_same; auto; apply upd_other; auto.
+    - rewrite Hto by (intros ? ?; rewrite Hpc; discriminate). cbn [fst dq set_thr set_dq].
+      split; [apply upd_same|apply upd_other; auto].
+  Qed.
+
+  Lemma own_pop k : pc (thr s u) = PN7 k ->
+    (dq s (sfrom s u) = [] /\ (forall d, dq s' d = dq s d) /\ popT (thr s' u) = None) \/
+    (exists y, dq s (sfrom s u) = y :: dq s' (sfrom s u) /\
+               dq s' (4 * u + 3 - sfrom s u) = dq s (4 * u + 3 - sfrom s u) /\ popT (thr s' u) = Some y).
+  Proof.
+    intros Hpc. pose proof (own_range N own s u I0 Hu) as (A1 & A2 & A3 & A4 & A5).
+    unfold s'. unfold step. rewrite Hpc. destruct (dq s (sfrom s u)) as [|y rest] eqn:EF.
+    - left. cbn [fst dq thr set_thr]. rewrite upd_same. auto.
+    - right. exists y. cbn [fst dq thr set_thr set_dq]. rewrite !upd_same. rewrite upd_other by auto. auto.
+  Qed.
+
+  Lemma own_lb1 k : pc (thr s u) = PL1 k ->
+    dq s' (sfrom s u) = dq s (sfrom s u) /\ dq s' (4 * u + 3 - sfrom s u) = dq s (4 * u + 3 - sfrom s u).
+  Proof.
+    intros Hpc. pose proof (own_range N own s u I0 Hu) as (A1 & A2 & A3 & A4 & A5).
+    unfold s'. unfold step. rewrite Hpc. rewrite fst_let2.
+    destruct (lb_effect s u (thr s u) k (2 * (u + 1)) (length (dq s (sfrom s u))) 50 None Hu (Nat.le_refl _))
+      as [(A & B & B')|(dv & y & l & i' & a & b & c & A & B & C & D1 & D2 & D3)].
+    - rewrite !A. auto.
+    - rewrite B. rewrite !upd_other by lia. auto.
+  Qed.
+
+  Lemma own_lb2 k i lc rc ms x0 : pc (thr s u) = PL2 k i lc rc ms x0 ->
+    dq s' (sfrom s u) = x0 :: dq s (sfrom s u) /\ dq s' (4 * u + 3 - sfrom s u) = dq s (4 * u + 3 - sfrom s u).
+  Proof.
+    intros Hpc. pose proof (own_range N own s u I0 Hu) as (A1 & A2 & A3 & A4 & A5).
+    pose proof (m_loc N own s I0 u Hu) as L. unfold lokN in L. rewrite Hpc in L. destruct L as (_ & _ & Hi).
+    unfold s'. unfold step. rewrite Hpc. rewrite fst_let2.
+    assert (Hu0 : u < nthr (set_dq s (sfrom s u) (x0 :: dq s (sfrom s u)))) by exact Hu.
+    destruct (lb_effect _ u (thr s u) k i (S lc) (ms - 1) (Some (rc - 1)) Hu0 Hi)
+      as [(A & B & B')|(dv & y & l & i' & a & b & c & A & B & C & D1 & D2 & D3)].
+    - rewrite !A. cbn [dq set_dq]. rewrite upd_same, upd_other by auto. auto.
+    - rewrite B. cbn [nthr set_dq] in D1. rewrite !upd_other by lia. cbn [dq set_dq].
+      rewrite upd_same, upd_other by auto. auto.
+  Qed.
+
+  Lemma stolen_none : (forall k, pc (thr s u) <> PL1 k) -> (forall k i a b c z, pc (thr s u) <> PL2 k i a b c z) ->
+    stolen s s' u = None.
+  Proof.
+    intros H1 H2. destruct (stolen s s' u) as [y|] eqn:E; auto. exfalso.
+    destruct (stolen_pc y E) as [(k & Hp)|(k & i & a & b & c & z & Hp)]; [eapply H1|eapply H2]; eauto.
+  Qed.
+
+  Lemma in_own_after g : In g (dq s' (sfrom s u)) \/ In g (dq s' (4 * u + 3 - sfrom s u)) ->
+    In g (dq s' (2 * u + 1)) \/ In g (dq s' (2 * u + 2)).
+  Proof.
+    pose proof (own_range N own s u I0 Hu) as (A1 & A2 & A3 & A4 & A5).
+    intros [Hg|Hg]; [destruct A4 as [E|E]|destruct A5 as [E|E]]; rewrite E in Hg; auto.
+  Qed.
+
+  (* schedule() / SAVING re-queue *)
+  Lemma gn_own_push f : (exists k, pc (thr s u) = PSched f k) \/ (exists k, pc (thr s u) = PN9 k f) -> GTu.
+  Proof.
+    intros Hp. destruct (own_push f Hp) as [ES EF].
+    pose proof (q_thr x G u Hu) as GU. fold s in GU.
+    pose proof (own_range N own s u I0 Hu) as (A1 & A2 & A3 & A4 & A5).
+    assert (Hu' : u < nthr s') by (rewrite En; exact Hu).
+    assert (Esf : sfrom s' u = sfrom s u) by (apply sf_same; intros ? ? ? E; destruct Hp as [(k0 & Hp0)|(k0 & Hp0)]; congruence).
+    assert (Hh : handout s u = None) by (apply handout_none; intros ? ? E; destruct Hp as [(k0 & Hp0)|(k0 & Hp0)]; congruence).
+    assert (Hpd : pendT (thr s u) = 0) by (apply pend_none; intros ? ? E; destruct Hp as [(k0 & Hp0)|(k0 & Hp0)]; congruence).
+    assert (Hp' : popT (thr s' u) = None) by (apply popT_after_none; intros ? E; destruct Hp as [(k0 & Hp0)|(k0 & Hp0)]; congruence).
+    assert (Hst : stolen s s' u = None)
+      by (apply stolen_none; [intros ? E|intros ? ? ? ? ? ? E]; destruct Hp as [(k0 & Hp0)|(k0 & Hp0)]; congruence).
+    assert (Hin : In f (held (thr s u))).
+    { pose proof (m_loc N own s I0 u Hu) as L. unfold lokN in L. unfold held.
+      destruct Hp as [(k & Hp)|(k & Hp)]; rewrite Hp in *; [|left; reflexivity].
+      destruct L as [_ L]. destruct k; try contradiction; try (left; reflexivity).
+      destruct L as (Hc & Hc0 & _). rewrite Hc in *. destruct f; [congruence|]. right; left; reflexivity. }
+    assert (Hpf : popT (thr s u) <> Some f).
+    { unfold popT. destruct Hp as [(k & Hp)|(k & Hp)]; rewrite Hp; discriminate. }
+    pose proof (cntT_FS N own s' u I' Hu') as Ec. unfold FqN, SqN in *. rewrite Esf, ES, EF in *.
+    rewrite pend_pop, Hp'. rewrite Hpd in GU.
+    assert (Hgh : forall g, In g (dq s' (sfrom s u)) \/ In g (dq s' (4 * u + 3 - sfrom s u)) ->
+              nbyp (nstep x u) g = nbyp x g /\ nstl x g <= nstl (nstep x u) g /\
+              nmx x g <= nmx (nstep x u) g /\ cntT s' u <= nmx (nstep x u) g).
+    { intros g Hg. destruct (own_ghost g (in_own_after g Hg)) as (B1 & B2 & B3 & B4 & B5 & B6); [intros y Hy; congruence|].
+      repeat split; auto. }
+    eapply GT_push; [exact GU| | | |].
+    - intros g Hg. apply Hgh. rewrite ES, EF. destruct Hg; [left|right; right]; auto.
+    - apply pushed_byp0; auto. intros y Hy. congruence.
+    - apply Hgh. right. rewrite ES. left; reflexivity.
+    - rewrite Ec. cbn [length]. lia.
+  Qed.
+
+  (* next(): pop_bottom *)
+  Lemma gn_own_pop k : pc (thr s u) = PN7 k -> GTu.
+  Proof.
+    intros Hpc. pose proof (q_thr x G u Hu) as GU. fold s in GU.
+    assert (Esf : sfrom s' u = sfrom s u) by (apply sf_same; intros ? ? ? E; congruence).
+    assert (Hh : handout s u = None) by (apply handout_none; intros ? ? E; congruence).
+    assert (Hpd : pendT (thr s u) = 0) by (apply pend_none; intros ? ? E; congruence).
+    destruct (own_pop k Hpc) as [(EF & Ed & Hp')|(y & EF & ES & Hp')].
+    - apply gn_own_same; auto.
+    - unfold FqN, SqN in *. rewrite Esf, ES. rewrite pend_pop, Hp'. rewrite Hpd, EF in GU.
+      eapply GT_pop; [exact GU|]. intros g Hg.
+      assert (Hg' : In g (dq s' (sfrom s u)) \/ In g (dq s' (4 * u + 3 - sfrom s u))) by (rewrite ES; exact Hg).
+      destruct (own_ghost g (in_own_after g Hg')) as (B1 & B2 & B3 & B4 & B5 & B6); [intros z Hz; congruence|].
+      repeat split; auto.
+  Qed.
+
+  (* next() examines the popped fiber: hand-out, or SAVING re-queue *)
+  Lemma gn_own_pn8 k y : pc (thr s u) = PN8 k y -> GTu.
+  Proof.
+    intros Hpc. pose proof (q_thr x G u Hu) as GU. fold s in GU.
+    pose proof (own_range N own s u I0 Hu) as (A1 & A2 & A3 & A4 & A5).
+    assert (Esf : sfrom s' u = sfrom s u) by (apply sf_same; intros ? ? ? E; congruence).
+    assert (Ed : forall d, dq s' d = dq s d).
+    { intros d. apply dq_same_pc; intros; congruence. }
+    assert (Hp' : popT (thr s' u) = None) by (apply popT_after_none; intros ? E; congruence).
+    destruct (handout s u) as [z|] eqn:Hh; [|apply gn_own_same; auto].
+    destruct (handout_held z Hh) as [Hin _].
+    assert (Hpd : pendT (thr s u) = 1) by (unfold pendT; rewrite Hpc; reflexivity).
+    unfold FqN, SqN in *. rewrite Esf, !Ed. rewrite pend_pop, Hp'. rewrite Hpd in GU.
+    eapply GT_hand; [exact GU|]. intros g Hg.
+    assert (Hg' : In g (dq s' (sfrom s u)) \/ In g (dq s' (4 * u + 3 - sfrom s u))) by (rewrite !Ed; exact Hg).
+    destruct (own_ghost g (in_own_after g Hg')) as (B1 & B2 & B3 & B4 & B5 & B6).
+    - intros z' Hz'. rewrite Hh in Hz'. inversion Hz'; subst z'. intros ->.
+      destruct Hg as [Hg|Hg];
+        [apply (held_dq_excl N own s u (sfrom s u) z I0 Hu A1 Hin Hg)
+        |apply (held_dq_excl N own s u (4 * u + 3 - sfrom s u) z I0 Hu A2 Hin Hg)].
+    - repeat split; auto.
+  Qed.
+
+  (* next(): the swap *)
+  Lemma gn_own_swap k tmp sv : pc (thr s u) = PN4 k tmp sv -> GTu.
+  Proof.
+    intros Hpc. pose proof (q_thr x G u Hu) as GU. fold s in GU.
+    pose proof (own_range N own s u I0 Hu) as (A1 & A2 & A3 & A4 & A5).
+    assert (Hu' : u < nthr s') by (rewrite En; exact Hu).
+    pose proof (m_loc N own s I0 u Hu) as L. unfold lokN in L. rewrite Hpc in L. destruct L as (_ & HF & _ & Hsv).
+    assert (Esf : sfrom s' u = sv).
+    { destruct (sf_effect s u) as [E|(k' & tmp' & sv' & Hp & E)]; [|fold s' in E; congruence].
+      exfalso. unfold s' in E. unfold step in E. rewrite Hpc in E. cbn [fst sfrom set_thr set_from] in E. rewrite upd_same in E. lia. }
+    assert (Ed : forall d, dq s' d = dq s d) by (intros d; apply dq_same_pc; intros; congruence).
+    assert (Hh : handout s u = None) by (apply handout_none; intros ? ? E; congruence).
+    assert (Hpd : pendT (thr s u) = 0) by (apply pend_none; intros ? ? E; congruence).
+    assert (Hp' : popT (thr s' u) = None) by (apply popT_after_none; intros ? E; congruence).
+    pose proof (cntT_FS N own s u I0 Hu) as Ec.
+    unfold FqN, SqN in *. rewrite Esf, !Ed. rewrite pend_pop, Hp'. rewrite Hpd, HF in GU. subst sv.
+    replace (4 * u + 3 - (4 * u + 3 - sfrom s u)) with (sfrom s u) by lia. rewrite HF.
+    eapply GT_swap; [exact GU|rewrite Ec; lia|]. intros g Hg.
+    assert (Hg' : In g (dq s' (sfrom s u)) \/ In g (dq s' (4 * u + 3 - sfrom s u))) by (rewrite !Ed; auto).
+    destruct (own_ghost g (in_own_after g Hg')) as (B1 & B2 & B3 & B4 & B5 & B6); [intros z Hz; congruence|].
+    repeat split; auto.
+  Qed.
+
+  (* load_balance *)
+  Lemma gn_own_lb1 k : pc (thr s u) = PL1 k -> GTu.
+  Proof.
+    intros Hpc. destruct (own_lb1 k Hpc) as [EF ES].
+    apply gn_own_same; auto.
+    - apply sf_same; intros ? ? ? E; congruence.
+    - apply handout_none; intros ? ? E; congruence.
+    - apply popT_after_none; intros ? E; congruence.
+  Qed.
+
+  Lemma gn_own_lb2 k i lc rc ms x0 : pc (thr s u) = PL2 k i lc rc ms x0 -> GTu.
+  Proof.
+    intros Hpc. destruct (own_lb2 k i lc rc ms x0 Hpc) as [EF ES].
+    pose proof (q_thr x G u Hu) as GU. fold s in GU.
+    pose proof (own_range N own s u I0 Hu) as (A1 & A2 & A3 & A4 & A5).
+    assert (Hu' : u < nthr s') by (rewrite En; exact Hu).
+    assert (Esf : sfrom s' u = sfrom s u) by (apply sf_same; intros ? ? ? E; congruence).
+    assert (Hh : handout s u = None) by (apply handout_none; intros ? ? E; congruence).
+    assert (Hpd : pendT (thr s u) = 0) by (apply pend_none; intros ? ? E; congruence).
+    assert (Hp' : popT (thr s' u) = None) by (apply popT_after_none; intros ? E; congruence).
+    assert (Hin : In x0 (held (thr s u))) by (unfold held; rewrite Hpc; left; reflexivity).
+    pose proof (cntT_FS N own s' u I' Hu') as Ec. unfold FqN, SqN in *. rewrite Esf, ES, EF in *.
+    rewrite pend_pop, Hp'. rewrite Hpd in GU.
+    assert (Hx0 : In x0 (dq s' (sfrom s u))) by (rewrite EF; left; reflexivity).
+    eapply GT_pushF; [exact GU| | | |].
+    - intros g Hg.
+      assert (Hg' : In g (dq s' (sfrom s u)) \/ In g (dq s' (4 * u + 3 - sfrom s u))).
+      { rewrite EF, ES. destruct Hg; [left; right|right]; auto. }
+      destruct (own_ghost g (in_own_after g Hg')) as (B1 & B2 & B3 & B4 & B5 & B6); [intros z Hz; congruence|].
+      assert (Hq : inqN s u g = true).
+      { apply inqN_spec. apply (own_FS N own s u g I0 Hu). exact Hg. }
+      rewrite (B4 ltac:(eauto 10) Hq). repeat split; auto; lia.
+    - apply pushed_byp0; auto.
+      + unfold popT. rewrite Hpc. discriminate.
+      + intros y Hy. pose proof (stolen_held y Hy) as Hiy. intros ->.
+        apply (held_dq_excl N own s' u (sfrom s u) y I' Hu' ltac:(rewrite En; lia) Hiy Hx0).
+    - destruct (own_ghost x0 (in_own_after x0 (or_introl Hx0))) as (B1 & B2 & B3 & B4 & B5 & B6); [intros z Hz; congruence|].
+      exact B6.
+    - rewrite Ec. cbn [length]. lia.
+  Qed.
+
+  Lemma gn_own : GTu.
+  Proof.
+    destruct (pc (thr s u)) eqn:Hpc.
+    all: try (apply gn_own_same;
+              [apply sf_same; intros ? ? ? E; congruence
+              |apply dq_same_pc; intros; congruence
+              |apply dq_same_pc; intros; congruence
+              |apply handout_none; intros ? ? E; congruence
+              |apply popT_after_none; intros ? E; congruence]; fail).
+    - apply (gn_own_push f). left; eauto.
+    - eapply gn_own_swap; eauto.
+    - eapply gn_own_pop; eauto.
+    - eapply gn_own_pn8; eauto.
+    - apply (gn_own_push x0). right; eauto.
+    - eapply gn_own_lb1; eauto.
+    - eapply gn_own_lb2; eauto.
+  Qed.
+
+  (* the other possibilities for a counter that is not reset *)
+  Lemma ghost_vals2 g :
+    is_some_eq (handout s u) g || is_some_eq (stolen s s' u) g = false ->
+    nmx x g <= nmx (nstep x u) g /\
+    (nbyp (nstep x u) g = nbyp x g \/
+     (nbyp (nstep x u) g = S (nbyp x g) /\ (exists y, handout s u = Some y) /\
+      inqN s u g = true /\ fstt s g <> 5%Z)).
+  Proof.
+    intros R. unfold nstep; cbn [nbyp nstl nmx]. fold s; fold s'. rewrite R. split.
+    - destruct (inqN s' u g); lia.
+    - destruct (handout s u) as [y|]; [|left; reflexivity].
+      destruct (Z.eqb_spec (fstt s g) 5); cbn [negb andb]; [left; reflexivity|].
+      destruct (inqN s u g); [right; repeat split; eauto|left; reflexivity].
+  Qed.
+
+  Lemma rst_true_zero g :
+    is_some_eq (handout s u) g || is_some_eq (stolen s s' u) g = true ->
+    nbyp (nstep x u) g = 0 /\ nstl (nstep x u) g = 0 /\ nmx (nstep x u) g = 0.
+  Proof. intros R. unfold nstep; cbn [nbyp nstl nmx]. fold s; fold s'. rewrite R. auto. Qed.
+
+  Lemma gn_all g : nbyp (nstep x u) g <= 2 * (nmx (nstep x u) g - 1) + nstl (nstep x u) g.
+  Proof.
+    destruct (is_some_eq (handout s u) g || is_some_eq (stolen s s' u) g) eqn:R.
+    - destruct (rst_true_zero g R) as (-> & -> & ->). lia.
+    - destruct (ghost_vals g R) as (_ & _ & Hst & _). destruct (ghost_vals2 g R) as (Hm & [Hb|(Hb & (y & Hy) & Hq & H5)]).
+      + pose proof (q_all x G g). lia.
+      + (* g is bypassed by this hand-out: it is on u's deques, use the potential *)
+        destruct (handout_pc y Hy) as (k & Hpc & _).
+        pose proof (q_thr x G u Hu) as [HS HF HC]. fold s in HS, HF, HC.
+        assert (Hpd : pendT (thr s u) = 1) by (unfold pendT; rewrite Hpc; reflexivity). rewrite Hpd in *.
+        apply inqN_spec in Hq. apply (own_FS N own s u g I0 Hu) in Hq.
+        assert (Hc1 : 1 <= cntT s u).
+        { rewrite (cntT_FS N own s u I0 Hu). destruct Hq as [Hq|Hq]; apply cnt_In in Hq;
+            [destruct (FqN s u)|destruct (SqN s u)]; cbn [cnt length] in *; lia. }
+        pose proof (HC g Hq) as Hcg. rewrite Hb.
+        destruct Hq as [Hq|Hq].
+        * apply In_nth_error in Hq. destruct Hq as [p Hp]. pose proof (HF p g Hp). lia.
+        * pose proof (HS g Hq). lia.
+  Qed.
+
+  Lemma gn_zero g :
+    fstt s' g = 5%Z \/ (Qcn (dq s') (nthr s') g = 0 /\ ~ poppedN s' g) -> nbyp (nstep x u) g = 0.
+  Proof.
+    intros Hz.
+    destruct (is_some_eq (handout s u) g || is_some_eq (stolen s s' u) g) eqn:R.
+    { apply (rst_true_zero g R). }
+    assert (Hu' : u < nthr s') by (rewrite En; exact Hu).
+    destruct (ghost_vals2 g R) as (_ & [Hb|(Hb & (y & Hy) & Hq & H5)]).
+    - rewrite Hb. apply orb_false_iff in R. destruct R as [R1 R2].
+      destruct Hz as [Hz|[HQ HP]].
+      + destruct (fs5_effect s u g Hz) as [E|E]; [apply (q_zero x G); left; exact E|].
+        apply held_byp0; [unfold held; rewrite E; left; reflexivity|unfold popT; rewrite E; discriminate].
+      + (* g was not queued and not popped before either, or it is SAVING *)
+        destruct (Z.eq_dec (fstt s g) 5) as [E5|E5]; [apply (q_zero x G); left; exact E5|].
+        apply (q_zero x G). right. fold s. split.
+        * destruct (Qcn (dq s) (nthr s) g) eqn:EQ; auto. exfalso.
+          destruct (Qcn_pos (dq s) (nthr s) g ltac:(lia)) as (d & Hd & Hin).
+          assert (Hd' : 1 <= d <= 2 * nthr s') by (rewrite En; exact Hd).
+          assert (Hno : ~ In g (dq s' d)).
+          { intros Hi. apply cnt_In in Hi. pose proof (Qcn_term (dq s') (nthr s') d g Hd'). lia. }
+          destruct (dq_effect N own s u d I0 Hu : dqeff s s' u d) as [E|z E Hst _ _ _|f E _ _|z k E _ Hp' _].
+          -- rewrite E in Hno. auto.
+          -- rewrite E in Hin. apply in_app_or in Hin. destruct Hin as [Hin|[<-|[]]]; [auto|].
+             rewrite Hst in R2. cbn in R2. rewrite Nat.eqb_refl in R2. discriminate.
+          -- rewrite E in Hno. apply Hno. right; exact Hin.
+          -- rewrite E in Hin. destruct Hin as [<-|Hin]; [|auto].
+             apply HP. exists u. split; auto. unfold popT. rewrite Hp'. reflexivity.
+        * intros (t & Ht & Hpt). destruct (Nat.eq_dec t u) as [->|Hne].
+          -- unfold popT in Hpt. destruct (pc (thr s u)) eqn:Hpc; try discriminate. inversion Hpt; subst x0.
+             unfold handout in R1. rewrite Hpc in R1. destruct (Z.eqb_spec (fstt s g) 5); [contradiction|].
+             cbn in R1. rewrite Nat.eqb_refl in R1. discriminate.
+          -- apply HP. exists t. split; [rewrite En; exact Ht|].
+             destruct (step_frame s u t Hne) as (Et & _). fold s' in Et. rewrite Et. exact Hpt.
+    - (* bypassed now: then it is still queued and not SAVING, so the premise is false *)
+      exfalso. destruct (handout_pc y Hy) as (k & Hpc & _).
+      assert (Ed : forall d, dq s' d = dq s d) by (intros d; apply dq_same_pc; intros; congruence).
+      apply inqN_spec in Hq. destruct Hz as [Hz|[HQ _]].
+      + destruct (fs5_effect s u g Hz) as [E|E]; [contradiction|congruence].
+      + destruct Hq as [Hq|Hq]; rewrite <- Ed in Hq; apply cnt_In in Hq;
+          [pose proof (Qcn_term (dq s') (nthr s') (2 * u + 1) g ltac:(rewrite En; lia))
+          |pose proof (Qcn_term (dq s') (nthr s') (2 * u + 2) g ltac:(rewrite En; lia))]; lia.
+  Qed.
+
+  Theorem gn_step : GNinv (nstep x u).
+  Proof.
+    constructor; cbn [nbase nstep]; fold s; fold s'.
+    - intros t Ht. rewrite En in Ht. destruct (Nat.eq_dec t u) as [->|Hne]; [apply gn_own|apply gn_other; auto].
+    - apply gn_all.
+    - apply gn_zero.
+  Qed.
 End GStep.
+
+Lemma ginitN progs : GNinv (ninit true progs).
+Proof.
+  constructor; cbn [nbase ninit nbyp nstl nmx]; auto; try lia.
+  intros t Ht. unfold FqN, SqN. cbn [init fst dq]. constructor.
+  - intros g [].
+  - intros [|p] g H; discriminate.
+  - intros g [[]|[]].
+Qed.
+
+Theorem nreach_inv N own progs x : progs_ok N own progs -> nreach true progs x ->
+  InvN N own (nbase x) /\ GNinv x.
+Proof.
+  intros Hp R. induction R as [|x t R [IH1 IH2] Hst].
+  - split; [apply init_invN; exact Hp|apply ginitN].
+  - pose proof (ready_lt _ _ Hst) as Ht. split.
+    + apply stepN_inv; auto.
+    + apply (gn_step N own x t IH1 IH2 Ht).
+Qed.
+
+(* only thread t adds to t's deques: a step of another thread leaves each of
+   them unchanged or removes its last element (a steal) *)
+Lemma others_only_steal N own s u t d : InvN N own s -> u < nthr s -> t < nthr s -> t <> u ->
+  (d = 2 * t + 1 \/ d = 2 * t + 2) -> shrinks (dq s d) (dq (fst (step s u)) d).
+Proof. intros I Hu Ht Hne Hd. apply (other_shrinks N own {| nbase := s; nbyp := fun _ => 0; nstl := fun _ => 0; nmx := fun _ => 0 |} u I Hu t d Ht Hne Hd). Qed.
+
+(* nmx never exceeds the number of fibers that exist *)
+Lemma length_flat_map_seq (f : nat -> list nat) n : length (flat_map f (seq 0 n)) = sumn (fun i => length (f i)) n.
+Proof.
+  induction n; [reflexivity|]. rewrite seq_S, flat_map_app, app_length, IHn. cbn [flat_map sumn Nat.add].
+  rewrite app_nil_r. reflexivity.
+Qed.
+
+Lemma cntT_le N own s t : InvN N own s -> t < nthr s -> cntT s t <= N.
+Proof.
+  intros I Ht. destruct (conservation_of_invN N own s I) as (_ & _ & _ & _ & _ & _ & _ & Hl & _).
+  unfold placesN in Hl. rewrite app_length, !length_flat_map_seq in Hl.
+  pose proof (sumn_term (fun i => length (held (thr s i))) (nthr s) t Ht) as H1. cbn beta in H1.
+  pose proof (sumn_two (fun i => length (dq s (S i))) (2 * nthr s) (2 * t) (2 * t + 1) ltac:(lia) ltac:(lia) ltac:(lia)) as H2.
+  cbn beta in H2. unfold cntT. replace (2 * t + 1) with (S (2 * t)) by lia. replace (2 * t + 2) with (S (2 * t + 1)) by lia. lia.
+Qed.
+
+Lemma nmx_le N own progs x g : progs_ok N own progs -> nreach true progs x -> nmx x g <= N.
+Proof.
+  intros Hp R. induction R as [|x t R IH Hst]; [cbn; lia|].
+  destruct (nreach_inv N own progs x Hp R) as [I _]. pose proof (ready_lt _ _ Hst) as Ht.
+  pose proof (stepN_inv N own (nbase x) t I Ht) as I'.
+  pose proof (cntT_le N own _ t I' ltac:(rewrite step_nthr; exact Ht)).
+  unfold nstep; cbn [nmx]. destruct (_ || _); [lia|]. destruct (inqN _ _ _); lia.
+Qed.
